@@ -304,3 +304,25 @@ Definition ex_task (i t : nat) : prog Z :=
        (Read (22%Z, (4 * Z.of_nat t)%Z)
           (fun y : Z => Write (1%Z, (2 * Z.of_nat i)%Z) (2 * y)%Z Done))).
 Definition ex_m0 : mem Z := fun l : loc => (100 * fst l + snd l)%Z.
+
+(* one record of the footprint correspondence: kind 0 = island site, 1 = collision site, 2 = tactile *)
+Definition site_case_ok (c : Z * list Z * list (list Z) * list (Z * Z * Z * Z * Z)) : bool :=
+  let '(kind, k, ls, ws) := c in
+  let L := fun i : nat => nth i ls [] in
+  let K := fun i : nat => nth i k 0%Z in
+  if (kind =? 0)%Z then island_case_ok (L 0%nat) (L 1%nat) (L 2%nat) (L 3%nat) (L 4%nat) (L 5%nat) (L 6%nat) (K 0%nat) (K 1%nat) ws
+  else if (kind =? 1)%Z then writes_ok (collision_site (K 0%nat) (K 1%nat) (K 2%nat) (K 3%nat) (L 0%nat)) ws
+  else if (kind =? 2)%Z then writes_ok (tactile_site (K 0%nat) (K 1%nat)) ws
+  else false.
+
+(* ---- the dense-Jacobian PGS island task AS CODED (engine_solver.c residual(): mju_dot over the whole
+   efc_force vector), on the smallest instance: two islands with one constraint row each.  Task i reads
+   BOTH entries of efc_force -- the other one multiplied by the exact zero AR[i][1-i] -- and updates
+   its own entry.  KNOWN finding C02-F3: the read of the other island's entry is outside the footprint. *)
+Definition pgs_site : list (Z * table) := [ (A_efc_force, TKey [0; 1]%Z) ].
+Definition pgs_dense_task (i t : nat) : prog Z :=
+  Read (A_efc_force, 0%Z) (fun f0 : Z =>
+  Read (A_efc_force, 1%Z) (fun f1 : Z =>
+    let ar := fun j : nat => if Nat.eqb j i then 2%Z else 0%Z in
+    let res := (100 + 3 * Z.of_nat i + ar 0%nat * f0 + ar 1%nat * f1)%Z in
+    Write (A_efc_force, Z.of_nat i) ((if Nat.eqb i 0 then f0 else f1) - res)%Z Done)).
